@@ -847,5 +847,160 @@ theorem fixDelNode_rel {P : K × V → Bool} {pre post : List (Node K V)} {lower
       · simp only [flatIdx, offs_add, offs_cons_succ, hlen]; omega
       · simp only [flatIdx, offs_add, offs_cons_succ, hlen]; omega
 
+/-! ### what lies ahead is a piece of the chain -/
+
+theorem aheadN_sublist (ns : List (Node K V)) (p : CPos) : (aheadN ns p).Sublist (flatten ns) := by
+  cases p with
+  | head => exact List.Sublist.refl _
+  | tail => exact List.nil_sublist _
+  | void => exact List.nil_sublist _
+  | «at» i j s => simp only [aheadN]; split <;> exact List.drop_sublist _ _
+
+theorem aheadP_sublist (ns : List (Node K V)) (p : CPos) : (aheadP ns p).Sublist (flatten ns) := by
+  cases p with
+  | head => exact List.nil_sublist _
+  | tail => exact List.Sublist.refl _
+  | void => exact List.nil_sublist _
+  | «at» i j s => simp only [aheadP]; split <;> exact List.take_sublist _ _
+
+theorem insRel_refl {P : K × V → Bool} {ns : List (Node K V)} (hl : ∀ r ∈ flatten ns, P r = true) {p : CPos}
+    (hp : CurOk ns p) : InsRel P ns ns p p :=
+  ⟨hp, filter_id_of_sublist hl (aheadN_sublist ns p), filter_id_of_sublist hl (aheadP_sublist ns p)⟩
+
+theorem delRel_refl {P : K × V → Bool} {ns : List (Node K V)} (hl : ∀ r ∈ flatten ns, P r = true) {p : CPos}
+    (hp : CurOk ns p) : DelRel P ns ns p p :=
+  ⟨hp, (filter_id_of_sublist hl (aheadN_sublist ns p)).symm, (filter_id_of_sublist hl (aheadP_sublist ns p)).symm⟩
+
+/-- the cursor table of `d'` is that of `d` with every position sent through `fix` -/
+def CursVia (fix : CPos → CPos) (d d' : Db K V) : Prop := d'.curs = d.curs.map fun cp => (cp.1, fix cp.2)
+
+theorem cursVia_mapCurs (f : CPos → CPos) (d : Db K V) (ns : List (Node K V)) :
+    CursVia f d (mapCurs f { d with nodes := ns }) := by
+  simp only [CursVia, mapCurs]
+
+theorem cursVia_id (d : Db K V) (ns : List (Node K V)) : CursVia id d { d with nodes := ns } := by
+  simp [CursVia]
+
+theorem cursVia_refl (d : Db K V) : CursVia id d d := by simp [CursVia]
+
+theorem cursVia_curPos {fix : CPos → CPos} {d d' : Db K V} (h : CursVia fix d d') (c : Nat) :
+    curPos d' c = (curPos d c).map fix := by
+  have h' : d'.curs = d.curs.map fun cp => (cp.1, fix cp.2) := h
+  simp only [curPos, h', List.find?_map, Option.map_map]
+  rfl
+
+/-- `P` of the key-based lemmas: the record's key differs from `k` -/
+def keyNe [DecidableEq K] (k : K) : K × V → Bool := fun r => decide (r.1 ≠ k)
+
+@[simp] theorem keyNe_self [DecidableEq K] (k : K) (v : V) : keyNe k (k, v) = false := by simp [keyNe]
+
+theorem keyNe_true [DecidableEq K] {k : K} {r : K × V} : keyNe k r = true ↔ r.1 ≠ k := by simp [keyNe]
+
+variable {gt : K → K → Bool}
+
+/-- in a descending list the keys around a member differ from its key -/
+theorem keyNe_around [DecidableEq K] (st : StrictTotal gt) {l1 l2 : List (K × V)} {k : K} {v : V}
+    (hd : Desc gt (l1 ++ (k, v) :: l2)) : ∀ r ∈ l1 ++ l2, keyNe k r = true := by
+  intro r hr
+  rw [keyNe_true]
+  rcases List.mem_append.1 hr with h | h
+  · exact st.ne_of_gt ((desc_mid hd).1 r h)
+  · exact fun e => st.ne_of_gt ((desc_mid hd).2 r h) e.symm
+
+/-! ### removal: every open cursor -/
+
+/-- `delAt` (slot removal and node removal): every usable position stays usable and keeps exactly
+    what lay ahead of it minus the removed record -/
+theorem delAt_cursors [DecidableEq K] (st : StrictTotal gt) (d : Db K V) (inv : NodeInv gt d.nodes) {li idx : Nat}
+    {pre post : List (Node K V)} {lower : Node K V} {t u : List (K × V)} {k : K} {av : V}
+    (e : d.nodes = pre ++ lower :: post) (hl : pre.length = li)
+    (e2 : lower.recs = t ++ (k, av) :: u) (hi : t.length = idx) :
+    ∃ fix, CursVia fix d (delAt d li idx) ∧
+      ∀ p, CurOk d.nodes p → DelRel (keyNe k) d.nodes (delAt d li idx).nodes p (fix p) := by
+  obtain ⟨nodes, curs⟩ := d
+  simp only at inv e ⊢
+  subst e hl hi
+  have hok := inv.1
+  rw [nodesOk_append, nodesOk_cons] at hok
+  have hf : flatten (pre ++ lower :: post) = (flatten pre ++ t) ++ (k, av) :: (u ++ flatten post) := by
+    rw [flatten_append, flatten_cons, e2]; simp only [List.append_assoc, List.cons_append]
+  have hd := inv.2
+  rw [hf] at hd
+  have hne := keyNe_around st hd
+  simp only [delAt, getElem?_mid rfl, take_mid rfl, drop_mid rfl]
+  split
+  · rename_i h1
+    rw [e2] at h1
+    simp only [List.length_append, List.length_cons] at h1
+    have ht : t = [] := List.eq_nil_of_length_eq_zero (by omega)
+    have hu : u = [] := List.eq_nil_of_length_eq_zero (by omega)
+    subst ht hu
+    refine ⟨_, cursVia_mapCurs _ _ _, fun p hp => ?_⟩
+    simp only [mapCurs_nodes]
+    refine fixDelNode_rel e2 (nodesOk_append.2 ⟨hok.1, hok.2.2⟩) (keyNe_self k av) ?_ p hp
+    simpa using hne
+  · rename_i h1
+    have he : lower.recs.eraseIdx t.length = t ++ u := by
+      rw [List.eraseIdx_eq_take_drop_succ, e2, take_mid rfl, drop_mid rfl]
+    rw [he]
+    refine ⟨_, cursVia_mapCurs _ _ _, fun p hp => ?_⟩
+    simp only [mapCurs_nodes]
+    have hlen := hok.2.1
+    rw [e2] at h1
+    simp only [List.length_append, List.length_cons] at h1
+    refine fixRm_rel e2 (by simp only [List.length_append]; omega) (keyNe_self k av) ?_ p hp
+    simpa [List.append_assoc] using hne
+
+/-- `iwkv_cursor_del` through any position holding a record -/
+theorem curDel_cursors [DecidableEq K] (st : StrictTotal gt) (d : Db K V) (inv : NodeInv gt d.nodes) (p0 : CPos)
+    {k : K} {ov : V} (h : curRec d p0 = some (k, ov)) :
+    ∃ fix, CursVia fix d (curDel d p0) ∧
+      ∀ p, CurOk d.nodes p → DelRel (keyNe k) d.nodes (curDel d p0).nodes p (fix p) := by
+  obtain ⟨i, j, s, pre, lower, post, t, u, rfl, e, hl, e2, hl2⟩ := curRec_split h
+  have : curDel d (.at i j s) = delAt d i j := by simp [curDel, h]
+  rw [this]
+  exact delAt_cursors st d inv e hl e2 hl2
+
+/-- `iwkv_del` of any key (present or not) -/
+theorem del_cursors [DecidableEq K] (st : StrictTotal gt) (d : Db K V) (inv : NodeInv gt d.nodes) (k : K) :
+    ∃ fix, CursVia fix d (del gt d k).1 ∧
+      ∀ p, CurOk d.nodes p → DelRel (keyNe k) d.nodes (del gt d k).1.nodes p (fix p) := by
+  have hsame : (∀ r ∈ flatten d.nodes, keyNe k r = true) → del gt d k = (d, false) →
+      ∃ fix, CursVia fix d (del gt d k).1 ∧
+        ∀ p, CurOk d.nodes p → DelRel (keyNe k) d.nodes (del gt d k).1.nodes p (fix p) := by
+    intro hall he
+    rw [he]
+    exact ⟨id, cursVia_refl d, fun p hp => delRel_refl hall hp⟩
+  cases hr : routeIdx gt k d.nodes with
+  | zero =>
+    have hlt := routeIdx_zero st inv hr
+    refine hsame (fun r hr' => keyNe_true.2 fun e => st.ne_of_gt (hlt r hr') e.symm) ?_
+    simp only [del, hr, if_true]
+  | succ r =>
+    obtain ⟨pre, lower, post, e, hl, hg, hc⟩ := lower_split st inv hr
+    have hn : d.nodes[r]? = some lower := by rw [e]; exact getElem?_mid hl
+    have hf := flatten_split pre post lower (findPos gt k lower.recs)
+    rw [← e] at hf
+    rcases hc with ⟨h2, hp, _⟩ | ⟨av, rest, h2, h3, hp⟩
+    · refine hsame ?_ ?_
+      · intro x hx
+        rw [hf] at hx
+        rw [keyNe_true]
+        rcases List.mem_append.1 hx with h | h
+        · exact st.ne_of_gt (hg x h)
+        · exact fun e => st.ne_of_gt (h2 x h) e.symm
+      · simp only [del, hr, Nat.add_one_ne_zero, if_false, Nat.add_sub_cancel, hn, hp, Bool.not_false, if_true]
+    · have : del gt d k = (delAt d r (findPos gt k lower.recs), true) := by
+        simp only [del, hr, Nat.add_one_ne_zero, if_false, Nat.add_sub_cancel, hn, hp, Bool.not_true,
+          Bool.false_eq_true]
+      rw [this]
+      have e2 : lower.recs = lower.recs.take (findPos gt k lower.recs) ++ (k, av) :: rest := by
+        rw [← h2, List.take_append_drop]
+      have hi : (lower.recs.take (findPos gt k lower.recs)).length = findPos gt k lower.recs := by
+        have := congrArg List.length h2
+        simp only [List.length_drop, List.length_cons] at this
+        rw [List.length_take]; omega
+      exact delAt_cursors st d inv e hl e2 hi
+
 end
 end IwModel.Kv
